@@ -1,4 +1,5 @@
 pub mod c01;
+pub mod c02;
 pub mod c03;
 pub mod c04;
 pub mod c05;
@@ -53,6 +54,7 @@ use crate::runner::{Report, Tier};
 pub fn run(id: &str, tier: Tier, seed: u64) -> Option<Report> {
     Some(match id {
         "C01" => c01::run(tier, seed),
+        "C02" => c02::run(tier, seed),
         "C03" => c03::run(tier, seed),
         "C04" => c04::run(tier, seed),
         "C05" => c05::run(tier, seed),
@@ -73,6 +75,7 @@ pub fn run(id: &str, tier: Tier, seed: u64) -> Option<Report> {
 pub fn replay(id: &str, phase: &str, tape: &[u16], seed: u64) -> Option<Report> {
     Some(match id {
         "C01" => c01::replay(phase, tape, seed),
+        "C02" => c02::replay(phase, tape, seed),
         "C03" => c03::replay(phase, tape, seed),
         "C04" => c04::replay(phase, tape, seed),
         "C05" => c05::replay(phase, tape, seed),
